@@ -511,7 +511,7 @@ def _children_loop(I, ordinal, it):
 def _children_inv(ctx):
     g = ctx.ghost
     seq = g["children_arg"]
-    K = ctx.env.vars.get("child_class")      # the class the code actually checks against
+    K = ctx.role("required child class (2nd parameter)", lambda n: n.args.args[1].arg, "child_class")      # the class the code actually checks against
     if not isinstance(K, IClass):
         raise OutOfReach("checks.children: child_class is not a class")
     j = z3.Int("j")
@@ -863,10 +863,15 @@ def task_c03_message(ident, nchildren):
         same_after_roundtrip(I, run, label + "/bytes", m, m3)
         try:
             data2 = I.call(I.getattr(m3, "to_string"), [], {})
-            e3 = I.ghost["et_serialised"].get(_tostring_key(I, data2))
-            e1 = I.ghost["et_serialised"].get(_tostring_key(I, data))
-            run.oblige("C03|%s/bytes/serialising-again-yields-identical-bytes" % label,
-                       xml_equal(I, e1, e3) if (e1 is not None and e3 is not None) else z3.BoolVal(False))
+            if isinstance(data, bytes) and isinstance(data2, bytes):
+                # a path on which everything is concrete (e.g. no attribute set at all): compare the bytes themselves
+                run.oblige("C03|%s/bytes/serialising-again-yields-identical-bytes" % label, z3.BoolVal(data == data2))
+            else:
+                e3 = I.ghost["et_serialised"].get(_tostring_key(I, data2))
+                e1 = I.ghost["et_serialised"].get(_tostring_key(I, data))
+                if e1 is None or e3 is None:
+                    raise OutOfReach("to_string does not frame the serialised element as declaration + element + newline in a recognisable way")
+                run.oblige("C03|%s/bytes/serialising-again-yields-identical-bytes" % label, xml_equal(I, e1, e3))
         except IRaise as ex:
             run.fail("C03|%s/bytes/second-serialisation-raises-nothing" % label, "raised %s" % ex)
     return task
